@@ -213,6 +213,73 @@ def eval_map_order(f, facts):
     return bad, cnt
 
 
+def clause_eq_length(facts, rep, files=('sonic/dom/', 'internal/arch/simd_skip.h'), min_sites=2):
+    """keys are equal only if their lengths are: every byte-wise EQUALITY comparison (memcmp family / InlinedMemcmpEq)
+    one operand of which is the character data of a string view is dominated by an equality test involving that
+    view's size (or a variable initialised from it).  Comparing s.size() bytes of a longer name is a prefix test.
+    The three-way comparator of the lookup map is decided separately (E2.map-order, by evaluation)."""
+    CMP = ('memcmp', '__builtin_memcmp', 'InlinedMemcmpEq', 'bcmp', 'strncmp')
+    n = 0
+    seen = set()
+    for f in facts.functions:
+        if not any(x in f.file for x in files) or (f.short == 'operator()' and 'Less' in (f.cls_qn or '')):
+            continue
+        sites = []
+        for bid, i, s_, e in f.walk():
+            if e.get('k') == 'call' and e.get('cname') in CMP and len(e.get('args', [])) == 3:
+                views = []
+                for a in e['args'][:2]:
+                    a_ = strip(a)
+                    while a_ is not None and a_.get('k') == 'cast':
+                        a_ = strip(a_['e'])
+                    if a_ is not None and a_.get('k') == 'call' and a_.get('cname') == 'data' and a_.get('obj') is not None:
+                        views.append(show(strip(a_['obj'])))
+                if views:
+                    sites.append((bid, i, e, views))
+        if not sites:
+            continue
+        key = (f.qn.split('<')[0], f.loc)
+        if key in seen:
+            continue
+        seen.add(key)
+        rep.fn(f)
+        # variables initialised / assigned from V.size()
+        sized = {}
+        for bid, i, s_ in f.stmts():
+            st = strip(s_)
+            if isinstance(st, dict) and st.get('k') == 'decl':
+                for vd in st['vars']:
+                    for x in walk(vd.get('init') or {}):
+                        if x.get('k') == 'call' and x.get('cname') in ('size', 'length', 'Size') and x.get('obj') is not None:
+                            sized.setdefault(vd['id'], set()).add(show(strip(x['obj'])))
+
+        def size_objs(c):
+            out = set()
+            for x in walk(c):
+                if x.get('k') == 'call' and x.get('cname') in ('size', 'length', 'Size') and x.get('obj') is not None:
+                    out.add(show(strip(x['obj'])))
+                if x.get('k') == 'ref' and x.get('id') in sized:
+                    out |= sized[x['id']]
+            return out
+
+        def gen_edge(b, cond, sense):
+            c = strip_expect(cond)
+            if c is not None and c.get('k') == 'bin' and ((c['op'] == '==' and sense) or (c['op'] == '!=' and not sense)):
+                return ['len:' + o for o in size_objs(c)]
+            return []
+        M = Must(f, gen_edge=gen_edge)
+        for bid, i, e, views in sites:
+            st = M.at(bid, i)
+            if st is None:
+                continue
+            n += 1
+            ok = any(('len:' + v) in st for v in views)
+            rep.check(ok, 'E2.key-length', f.qn, show(e)[:80], locline(e['loc']),
+                      'the byte comparison must be dominated by an equality test of the size of %s' % ' / '.join(views), facts.config)
+    rep.require(n >= min_sites, 'C14: %d equality comparisons of string-view data found (>= %d expected)' % (n, min_sites))
+    return n
+
+
 def clause_c(facts, rep):
     n = 0
     seen = set()
@@ -396,6 +463,7 @@ def run(rep, tier):
     clause_a(facts, rep, False)
     clause_b(facts, rep, tier)
     n = clause_c(facts, rep)
+    clause_eq_length(facts, rep)
     clause_e(facts, rep, ('::avx2::',))
     rep.require(n >= 2, 'C14.c: lookup / comparator sites found: %d' % n)
     facts2 = get_facts('K2')
